@@ -1,6 +1,7 @@
 package effects
 
 import (
+	"regexp"
 	"go/types"
 	"fmt"
 	"go/token"
@@ -85,9 +86,21 @@ func ScannerHelpers(w *World, rel string) *report.RuleResult {
 		}
 		return f
 	}
+	// how the scanner holds its pools (a pointer field, a value field, through a helper) does not matter: what is
+	// required is that the object comes from the Get of the position / token pool
+	poolRe := regexp.MustCompile(`pkg/(position|token)\.Pool\.Get\([^()]*\)`)
+	canon := func(x string) string { return poolRe.ReplaceAllString(x, "pkg/$1.Pool.Get(pool)") }
 	expect := func(key string, fn *ssa.Function, got map[string][]string, field, want, why string) {
 		res.Count("facts", 1)
-		vs := got[field]
+		field, want = canon(field), canon(want)
+		var vs []string
+		for k, v := range got {
+			if canon(k) == field {
+				for _, x := range v {
+					vs = append(vs, canon(x))
+				}
+			}
+		}
 		ok := len(vs) >= 1
 		for _, v := range vs {
 			if v != want {
